@@ -10,6 +10,7 @@ import (
 )
 
 // TestVerifC01: `cg <allowed csv|-> <sealed 0|1> <target> <certtype> <key ok|bad> <7 shape tokens>`
+//   `cfgcg <allowed csv|-> <webui csv|-> <target> …` the same on a state loaded from a config file
 //   ↦ `issued <hex principal>` | `refused <status>` | `noresponse` | `panic`
 func TestVerifC01(t *testing.T) {
 	io := vfOpen(t)
@@ -18,24 +19,50 @@ func TestVerifC01(t *testing.T) {
 	defer cleanup()
 	shapes := vfNewShapes(t, state)
 	signer := state.Signer
+	handState, handShapes, handSigner := state, shapes, signer
+	cfgShapes := map[*RuntimeState]*vfShapes{}
 	for _, line := range io.ops {
 		f := strings.Fields(line)
-		if len(f) != 13 || f[0] != "cg" {
+		if len(f) != 13 || (f[0] != "cg" && f[0] != "cfgcg") {
 			io.emit("bad-op")
 			continue
 		}
-		if f[1] == "-" {
-			state.Config.Base.AllowedAuthBackendsForCerts = nil
+		state, shapes, signer = handState, handShapes, handSigner
+		if f[0] == "cfgcg" {
+			// cfgcg <allowed for certs> <allowed for web UI> …: the lists are written into a config file that the
+			// real loader reads; nothing is assigned to state.Config by hand
+			loader, err := vfConfigLoader(t)
+			if err != nil {
+				io.emit("harness-error %v", err)
+				continue
+			}
+			st, err := loader.load(map[string]interface{}{
+				"base.allowed_auth_backends_for_certs": vfCfgList(f[1]),
+				"base.allowed_auth_backends_for_webui": vfCfgList(f[2]),
+				"base.automation_users":                []interface{}{"role1"},
+			}, true)
+			if err != nil {
+				io.emit("load-error %s", strings.Join(strings.Fields(err.Error()), "_"))
+				continue
+			}
+			if cfgShapes[st] == nil {
+				cfgShapes[st] = vfNewShapes(t, st)
+			}
+			state, shapes, signer = st, cfgShapes[st], st.Signer
 		} else {
-			state.Config.Base.AllowedAuthBackendsForCerts = strings.Split(f[1], ",")
+			if f[1] == "-" {
+				state.Config.Base.AllowedAuthBackendsForCerts = nil
+			} else {
+				state.Config.Base.AllowedAuthBackendsForCerts = strings.Split(f[1], ",")
+			}
+			state.Mutex.Lock()
+			if f[2] == "1" {
+				state.Signer = nil
+			} else {
+				state.Signer = signer
+			}
+			state.Mutex.Unlock()
 		}
-		state.Mutex.Lock()
-		if f[2] == "1" {
-			state.Signer = nil
-		} else {
-			state.Signer = signer
-		}
-		state.Mutex.Unlock()
 		key := testUserSSHPublicKey
 		if f[4] != "ssh" {
 			key = testUserPEMPublicKey
